@@ -24,6 +24,7 @@ import math
 
 import numpy as np
 import torch
+import torch.nn as nn
 
 from .. import core, rig
 from ..core import f2h, h2f
@@ -75,7 +76,7 @@ TRUSTED = [
 PARTIAL = [
     "distributed branch of _update_clip_and_noise (all_reduce of count and batch size) not modelled",
     "the data-dependence of the Poisson batch size in the fraction's denominator and in σ_b = B/20 (acknowledged as a leak in the source comments) is outside the stated property and not modelled",
-    "secure_mode: the count noise of AdaClipDPOptimizer is drawn with a single torch.normal call (secure_mode is not forwarded); observed, not part of the property",
+    "secure_mode: the count noise of AdaClipDPOptimizer is drawn with a single torch.normal call (secure_mode is not forwarded); what IS checked in both modes is the variance the draws add to the released count (unit-response oracle)",
 ]
 
 TOL = 1e-9
@@ -589,6 +590,79 @@ def small_scope_cases():
     return out
 
 
+def count_noise_variance_oracle(secure, sb=3.0):
+    """The unclipped count is perturbed by Gaussian noise of the CONFIGURED standard deviation: whatever combination of
+    torch.normal draws the optimizer uses (one draw; in secure mode possibly several), the variance it adds to the count,
+    Σ_k (response of the released count to one standard deviation of draw k)², must be unclipped_num_std²."""
+    from opacus import GradSampleModule
+    from opacus.optimizers import AdaClipDPOptimizer
+
+    def run(mode):
+        torch.manual_seed(1)
+        model = nn.Linear(3, 1, bias=False)
+        gsm = GradSampleModule(model)
+        opt = AdaClipDPOptimizer(torch.optim.SGD(model.parameters(), lr=0.0), noise_multiplier=1.0, max_grad_norm=1.0, expected_batch_size=4, target_unclipped_quantile=0.5,
+                                 clipbound_learning_rate=0.2, max_clipbound=10.0, min_clipbound=0.1, unclipped_num_std=sb, secure_mode=secure)
+        gsm(torch.tensor([[3.0, 0, 0], [0.1, 0, 0], [0, 0.2, 0], [0, 0, 5.0]])).sum().backward()
+        opt.clip_and_accumulate()
+        exact = float(opt.unclipped_num)
+        with rig.patched_normal(mode) as log:
+            opt.add_noise()
+        return float(opt.unclipped_num) - exact, [int(np.prod(c[1])) if len(c[1]) else 1 for c in log.calls]
+
+    _, sizes = run("zero")
+    K = len(sizes)
+    var = sum(run(("unit", k + 1, j))[0] ** 2 for k, n in enumerate(sizes) for j in range(n))
+    if not core.close(var, sb * sb, 1e-9):
+        return ("C20:count-noise-std:" + ("secure" if secure else "plain"), f"AdaClipDPOptimizer(secure_mode={secure}, unclipped_num_std={sb}): the {K} torch.normal calls ({sum(sizes)} Gaussian coordinates) of one step add variance {var:.6g} "
+                f"to the released unclipped count (std {var ** 0.5:.4g}), configured {sb}", {"failing_input": {"oracle": "count-noise-variance", "secure": secure}})
+    return None
+
+
+def state_dict_roundtrip_oracle(sigma=1.2, sb=3.0):
+    """optimizer.state_dict() -> fresh AdaClipDPOptimizer -> load_state_dict(): whatever the state dict carries, every later step
+    still adds gradient noise of std (sigma^-2 - (2 sigma_b)^-2)^(-1/2) x the bound the step clipped with, and count noise of
+    std sigma_b."""
+    from opacus import GradSampleModule
+    from opacus.optimizers import AdaClipDPOptimizer
+
+    def make():
+        torch.manual_seed(1)
+        model = nn.Linear(3, 1, bias=False)
+        gsm = GradSampleModule(model)
+        opt = AdaClipDPOptimizer(torch.optim.SGD(model.parameters(), lr=0.1, momentum=0.9), noise_multiplier=sigma, max_grad_norm=1.0, expected_batch_size=4,
+                                 target_unclipped_quantile=0.5, clipbound_learning_rate=0.2, max_clipbound=10.0, min_clipbound=0.1, unclipped_num_std=sb)
+        return gsm, opt
+
+    x = torch.tensor([[3.0, 0, 0], [0.1, 0, 0], [0, 0.2, 0], [0, 0, 5.0]])
+    want = (sigma ** -2 - (2 * sb) ** -2) ** -0.5
+
+    def step(gsm, opt):
+        opt.zero_grad()
+        gsm(x).sum().backward()
+        c = float(opt.max_grad_norm)
+        with rig.patched_normal("zero") as log:
+            opt.step()
+        gstd = [st for st, sz, _ in log.calls if len(sz) == 2]
+        cstd = [st for st, sz, _ in log.calls if len(sz) != 2]
+        return c, gstd, cstd
+
+    g1, o1 = make()
+    for _ in range(3):
+        step(g1, o1)
+    sd = o1.state_dict()
+    g2, o2 = make()
+    g2._module.load_state_dict(g1._module.state_dict())
+    o2.load_state_dict(sd)
+    for k in range(2):
+        c, gstd, cstd = step(g2, o2)
+        if not gstd or any(not core.close(s_, want * c, 1e-5) for s_ in gstd) or any(not core.close(s_, sb, 1e-5) for s_ in cstd):
+            return ("C20:grad-noise-std:after-load_state_dict", f"AdaClipDPOptimizer(noise_multiplier={sigma}, unclipped_num_std={sb}) after state_dict() -> fresh optimizer -> load_state_dict(): "
+                    f"step {k} clipped with C={c} and requested gradient-noise std {gstd} (required {want * c}), count-noise std {cstd} (required {sb})",
+                    {"failing_input": {"oracle": "state-dict-roundtrip"}})
+    return None
+
+
 def regenerate(ctx):
     from .. import regen
     from . import c20_trans as T
@@ -597,6 +671,15 @@ def regenerate(ctx):
 
 def run(ctx):
     regenerate(ctx)
+    for secure in (False, True):
+        ctx.count("search:count-noise-variance")
+        res = count_noise_variance_oracle(secure)
+        if res:
+            ctx.property_failure(res[0], res[1], res[2])
+    ctx.count("search:state-dict-roundtrip")
+    res = state_dict_roundtrip_oracle()
+    if res:
+        ctx.property_failure(res[0], res[1], res[2])
     known = {f["key"] for f in ctx.findings if f.get("status") == "known"}
     with rig.default_dtype(torch.float64):
         variants = detect_variants(ctx)
